@@ -560,8 +560,11 @@ def make_resources(rs, handles=None, wrap=False):
                     if self.taskdep and task is not None and isinstance(task.id, int) and \
                             datetime(date.year, date.month, date.day) < BASE + timedelta(days=3 + task.id % 3):
                         return 0
-                    return self.inner.get_available_units(date, None)
-            r = Crew(r, wrap == 2)
+                    v = self.inner.get_available_units(date, None)
+                    if self.taskdep == 3 and task is not None and v:
+                        return v / 2        # wrap == 3: a single task is served by half the crew at most
+                    return v
+            r = Crew(r, wrap if wrap in (2, 3) else False)
         out.append(r)
     return out
 
